@@ -37,7 +37,10 @@ int main() {
     std::string line;
     while (std::getline(std::cin, line)) {
         auto parts = split(line, '|');
+        // first field: <nthreads> or <nthreads>@<initial version> (the version counter is set through the object representation)
         int n = std::stoi(parts[0]);
+        long long v0 = 0;
+        if (parts[0].find('@') != std::string::npos) v0 = std::stoll(parts[0].substr(parts[0].find('@') + 1));
         std::vector<std::vector<std::string>> scripts(n);
         for (int i = 0; i < n; ++i) {
             std::stringstream ss(parts[1 + i]);
@@ -62,6 +65,7 @@ int main() {
             }
         }
         Lock lock;
+        reinterpret_cast<std::atomic<int>*>(&lock)->store((int)v0);
         std::vector<std::string> log;  // appended only by the single running thread
         std::vector<std::function<void()>> bodies;
         for (int t = 0; t < n; ++t) {
